@@ -1994,7 +1994,7 @@ func (p *printer) funcBodyUnnamed(headerSize int, sep whiteSpace, b *ast.BlockSt
 				p.linebreak(p.lineFor(s.Pos()), 1, ignore, p.linesFrom(line) > 0)
 			}
 			p.recordLine(&line)
-			p.stmt(s, true && i == len(b.List)-1)
+			p.stmt(s, false) // the top-level statements of a script are not followed by a '}'
 			// labeled statements put labels on a separate line, but here
 			// we only care about the start line of the actual statement
 			// without label - correct line for each label
